@@ -2,6 +2,7 @@ import ZapVerif.Drv.Util
 import ZapVerif.Model.Entry
 import ZapVerif.Model.Console
 import ZapVerif.Model.MapEnc
+import ZapVerif.Model.Binary
 /-! parser of the encoder-family op format (shared by C01, C02, C10, C16) -/
 namespace ZapVerif.Drv.EncOp
 open Lean ZapVerif ZapVerif.Drv ZapVerif.Json ZapVerif.Enc ZapVerif.Entry
@@ -108,7 +109,10 @@ partial def parseField (ks : Kinds) (j : Json) : R Field := do
   let f ← str j "f"
   let k := hexFldD j "key"
   match f with
-  | "prim" => return .prim k (← parsePrim ks (← fld j "p"))
+  | "prim" =>
+    -- zap.Binary: the model computes the base64 text from the raw payload (`bin`); the generator's own text (p.s) is ignored
+    if has j "bin" then return binaryField k (← hexFld j "bin")
+    return .prim k (← parsePrim ks (← fld j "p"))
   | "obj" => return .obj k (← parseOCs ks (arrD j "calls")) (← optHex j "err")
   | "arr" => return .arr k (← parseACs ks (arrD j "calls")) (← optHex j "err")
   | "inline" => return .inline k (← parseOCs ks (arrD j "calls")) (← optHex j "err")
